@@ -22,6 +22,9 @@ pub struct CaseOut {
     pub obs: BTreeMap<String, u64>,
     /// a written-out description of this case (the check keeps a few)
     pub sample: Option<Value>,
+    /// number of further distinct non-trivial sub-cases that are distinct by construction
+    /// (e.g. crash points of this case's own execution) and therefore only counted
+    pub distinct_extra: u64,
 }
 
 impl CaseOut {
@@ -85,6 +88,7 @@ impl CaseOut {
         if self.sample.is_none() {
             self.sample = other.sample;
         }
+        self.distinct_extra += other.distinct_extra;
     }
     pub fn to_json(&self) -> Value {
         json!({
@@ -94,6 +98,7 @@ impl CaseOut {
             "sets": self.sets.iter().map(|(k, s)| (k.clone(), json!(s.iter().collect::<Vec<_>>()))).collect::<serde_json::Map<_, _>>(),
             "obs": self.obs,
             "sample": self.sample,
+            "distinct_extra": self.distinct_extra,
         })
     }
 }
